@@ -72,6 +72,8 @@ type Scenario struct {
 	Kind      string `json:"kind"`
 	NSess     int    `json:"nsess"`
 	Cap       int    `json:"cap"`        // TCP pipe capacity (0 = unbounded)
+	OneUnderlay bool `json:"one_underlay"` // all sessions multiplexed on one underlay (client multiplex factor 1000)
+	PumpGapMs int    `json:"pump_gap_ms"`  // > 0: a Flood op writes 1000 bytes every PumpGapMs ms (an active writer, peer reading)
 	Apis      bool   `json:"apis"`       // both ends through apis/client and apis/server (Start / Stop); CMux / SMux then mean Stop
 	Stall     bool   `json:"stall"`      // server app never reads & the client floods first (back-pressure)
 	FloodDLms int    `json:"flood_deadline_ms"` // write deadline set before every Write of a Flood op (0 = none)
@@ -89,7 +91,8 @@ type rec struct {
 	n      int
 	done   atomic.Bool
 	abs    int64 // for deadline setters: absolute us (0 = clear)
-	curStart atomic.Int64 // Flood: start of the Write in progress
+	curStart atomic.Int64 // Flood / Drain: start of the call in progress
+	nreads atomic.Int64 // Drain: number of Read calls issued
 	dump   string // goroutine dump taken 3 s after a Close started (if it was still running)
 }
 
@@ -243,41 +246,60 @@ func blockedCloseCause(kind string, dump string, durUs int64) (cause string, rea
 		}
 		return true
 	}
+	var (
+		selfDeadlock   bool // closeWithError waits for a mutex while its own caller chain is the output loop (lock holder = waiter)
+		sessLockWaiter bool // some other goroutine sits in closeWithError -> Mutex.Lock
+		writeStalled   bool // the output loop is inside conn.Write (and holds oLock)
+		muxWaitsLoops  bool // Mux.Close itself in serverUnderlayLoopWG.Wait
+		muxInSessWg    bool // Mux.Close -> underlay Close -> s.wg.Wait (session loops still running)
+		loopInRead     bool // a server underlay event loop is inside its network read
+	)
 	closerFrame := "unknown"
-	switch kind {
-	case "SMux", "CMux":
-		muxWaitsLoops, loopInRead := false, false
-		for _, g := range gs {
-			if has(g, "protocol.(*Mux).Close(") {
+	for _, g := range gs {
+		inOut := has(g, "runOutputOnceStream") || has(g, "runOutputOncePacket")
+		if has(g, "(*Session).closeWithError", "sync.(*Mutex).Lock") {
+			if inOut {
+				selfDeadlock = true
+			} else {
+				sessLockWaiter = true
+			}
+		}
+		if has(g, "runOutputOnceStream", "writeOneSegment", "simnet.(*pipe).write") {
+			writeStalled = true
+		}
+		if has(g, "protocol.(*Mux).Close(") {
+			if kind == "SMux" || kind == "CMux" {
 				closerFrame = shortFn(mieruFrame.FindString(g))
-				if has(g, "sync.(*WaitGroup).Wait") && !has(g, "baseUnderlay).Close") {
+			}
+			if has(g, "sync.(*WaitGroup).Wait") {
+				if has(g, "baseUnderlay).Close") {
+					muxInSessWg = true
+				} else {
 					muxWaitsLoops = true
 				}
 			}
-			if has(g, "RunEventLoop", "readOneSegment", "startServerUnderlayEventLoop") && (has(g, "simnet.(*pipe).read") || has(g, "simnet.(*PacketConn).ReadFrom")) {
-				loopInRead = true
-			}
+		} else if kind == "Close" && has(g, "(*Session).closeWithError") && !inOut && !has(g, "baseUnderlay).Close") && !has(g, "runInputLoop") {
+			closerFrame = shortFn(mieruFrame.FindString(g))
 		}
+		if has(g, "RunEventLoop", "readOneSegment", "startServerUnderlayEventLoop") && (has(g, "simnet.(*pipe).read") || has(g, "simnet.(*PacketConn).ReadFrom")) {
+			loopInRead = true
+		}
+	}
+	switch {
+	case selfDeadlock:
+		return "olock-self-deadlock-closewitherror-under-output-loop", false
+	case kind == "Close" && sessLockWaiter && writeStalled:
+		// known finding: only the application's Session.Close; a mux / underlay Close interrupts the stalled write
+		return "session-olock-behind-stalled-conn-write", false
+	case kind == "SMux" && muxWaitsLoops && loopInRead && !sessLockWaiter && !writeStalled && !muxInSessWg && (durUs < 0 || durUs <= readTimeoutUs+2_000_000):
 		// the re-armed read timeout bounds the wait: it cannot last longer than one full timeout
-		if kind == "SMux" && muxWaitsLoops && loopInRead && (durUs < 0 || durUs <= readTimeoutUs+2_000_000) {
-			return "server-mux-eventloop-rearmed-read-timeout", true
-		}
-	default:
-		closerLock, outInWrite := false, false
-		for _, g := range gs {
-			if has(g, "(*Session).closeWithError") && !has(g, "runOutputOnceStream") {
-				closerFrame = shortFn(mieruFrame.FindString(g))
-				if has(g, "sync.(*Mutex).Lock") {
-					closerLock = true
-				}
-			}
-			if has(g, "runOutputOnceStream", "writeOneSegment", "simnet.(*pipe).write") {
-				outInWrite = true
-			}
-		}
-		if closerLock && outInWrite {
-			return "session-olock-behind-stalled-conn-write", false
-		}
+		return "server-mux-eventloop-rearmed-read-timeout", true
+	case (kind == "SMux" || kind == "CMux") && writeStalled:
+		return "mux-close-behind-stalled-conn-write", false
+	case (kind == "SMux" || kind == "CMux") && sessLockWaiter:
+		return "mux-close-waits-session-closewitherror-olock", false
+	case (kind == "SMux" || kind == "CMux") && muxInSessWg:
+		return "mux-close-waits-session-loops", false
 	}
 	return strings.ToLower(kind) + "-at-" + closerFrame, false
 }
@@ -381,7 +403,7 @@ func (rn *runner) run(sc *Scenario) {
 			}
 		}
 	} else {
-		rg, err := rig.Start(rig.Opts{Transport: sc.Transport, Net: nw, Users: map[string]string{user: "pw-" + user}, ClientUser: user, ClientPass: "pw-" + user, Multiplex: 1})
+		rg, err := rig.Start(rig.Opts{Transport: sc.Transport, Net: nw, Users: map[string]string{user: "pw-" + user}, ClientUser: user, ClientPass: "pw-" + user, Multiplex: map[bool]int{false: 1, true: 1000}[sc.OneUnderlay]})
 		if err != nil {
 			panic(err)
 		}
@@ -616,8 +638,14 @@ func (w *world) exec(rc *rec) {
 		// op.Arg writes of 16 bytes, each under its own fresh write deadline of floodDLms (0 = none);
 		// returns at the first error; rc.late = longest single Write in us
 		one := make([]byte, 16)
+		if w.sc.PumpGapMs > 0 {
+			one = make([]byte, 1000)
+		}
 		cnt, cls := 0, "OK"
 		for i := 0; i < op.Arg; i++ {
+			if w.sc.PumpGapMs > 0 && i > 0 {
+				time.Sleep(time.Duration(w.sc.PumpGapMs) * time.Millisecond)
+			}
 			if w.sc.FloodDLms > 0 {
 				w.conn(rc).SetWriteDeadline(time.Now().Add(time.Duration(w.sc.FloodDLms) * time.Millisecond))
 			}
@@ -630,6 +658,21 @@ func (w *world) exec(rc *rec) {
 			cnt++
 		}
 		fin(cls, cnt)
+	case "Drain":
+		// reads until the first error; n = bytes read, rc.abs = number of Read calls, curStart = start of the last one
+		buf := make([]byte, 1<<16)
+		total, cls := 0, "OK"
+		for {
+			rc.curStart.Store(w.now())
+			rc.nreads.Add(1)
+			n, err := w.conn(rc).Read(buf)
+			total += n
+			if err != nil {
+				cls = classify(0, err)
+				break
+			}
+		}
+		fin(cls, total)
 	case "SetRD":
 		t, abs := dl(op.Arg)
 		w.conn(rc).SetReadDeadline(t)
@@ -799,6 +842,16 @@ func (rn *runner) emit(w *world, sc *Scenario, get func(i int) (bool, int64, str
 	type wr struct{ t0, t1 int64; n int }
 	written := map[string][]wr{}
 	maybe := map[string][]wr{}
+	for _, rc := range w.recs {
+		if rc.op.Kind == "Flood" && rc.seqI > 0 {
+			to := "s"
+			if rc.op.End == "s" {
+				to = "c"
+			}
+			k := fmt.Sprintf("%s%d", to, rc.op.Sess)
+			maybe[k] = append(maybe[k], wr{rc.t0, -1, rc.op.Arg * 1000})
+		}
+	}
 	for i, rc := range w.recs {
 		if rc.op.Kind == "Write" {
 			done, t1, class, n, _ := get(i)
@@ -809,7 +862,7 @@ func (rn *runner) emit(w *world, sc *Scenario, get func(i int) (bool, int64, str
 			k := fmt.Sprintf("%s%d", to, rc.op.Sess)
 			if done && class == "OK" && n > 0 {
 				written[k] = append(written[k], wr{rc.t0, t1, n})
-			} else if rc.seqI > 0 && rc.op.Arg > 0 {
+			} else if rc.seqI > 0 && rc.op.Arg > 0 && rc.op.Kind == "Write" {
 				// a Write is not atomic: any prefix of a Write that is still running (or that failed) may arrive
 				maybe[k] = append(maybe[k], wr{rc.t0, t1, rc.op.Arg})
 			}
@@ -838,6 +891,8 @@ func (rn *runner) emit(w *world, sc *Scenario, get func(i int) (bool, int64, str
 			cl, er := w.closedWindow(op.End, op.Sess, get3, false)
 			facts := ""
 			switch op.Kind {
+			case "Drain":
+				facts = fmt.Sprintf("%d %d %d %d %d %d %d", int64(-2), cl.lo, cl.hi, er.lo, er.hi, rc.curStart.Load(), rc.nreads.Load())
 			case "Read":
 				// earliest time unread data is available: total written towards this end before t vs consumed by earlier reads
 				k := fmt.Sprintf("%s%d", op.End, op.Sess)
@@ -998,7 +1053,7 @@ func (rn *runner) oracle(w *world, sc *Scenario, get func(i int) (bool, int64, s
 			if done && class != "OK" {
 				rn.fail("close-returned-error", fmt.Sprintf("%s returned %s", op.Kind, class), sc, map[string]interface{}{"op": op})
 			}
-		case "Read", "Write", "Flood":
+		case "Read", "Write", "Flood", "Drain":
 			if op.Kind == "Flood" && sc.FloodDLms > 0 {
 				end := t1
 				if !done {
@@ -1011,7 +1066,7 @@ func (rn *runner) oracle(w *world, sc *Scenario, get func(i int) (bool, int64, s
 				}
 			}
 			// (a) deadline bounds the call (spec semantics)
-			if d := specDeadline(rc); d > 0 && !(op.Kind == "Flood" && sc.FloodDLms > 0) {
+			if d := specDeadline(rc); d > 0 && !(op.Kind == "Flood" && sc.FloodDLms > 0) && op.Kind != "Drain" {
 				late := (!done && d+tolUs < int64(sc.HorizonMs)*1000) || (done && t1 > maxI(d, rc.t0)+tolUs)
 				if late {
 					sig := rn.deadlineSig(w, rc, d)
@@ -1031,7 +1086,8 @@ func (rn *runner) oracle(w *world, sc *Scenario, get func(i int) (bool, int64, s
 				lim := maxI(cl.hi, rc.t0) + 1_000_000*int64(sc.NSess)
 				if !done || t1 > lim {
 					by := w.closeCause(op.End, op.Sess)
-					rn.fail(fmt.Sprintf("%s-not-unblocked-by-%s-%s", strings.ToLower(op.Kind), by, sc.Transport),
+					kindName := map[string]string{"Read": "read", "Drain": "read", "Write": "write", "Flood": "write"}[op.Kind]
+					rn.fail(fmt.Sprintf("%s-not-unblocked-by-%s-%s", kindName, by, sc.Transport),
 						fmt.Sprintf("%s at end %s issued at %d ms did not return within 1 s of the close that completed at %d ms (returned: %v at %d ms) [%s]",
 							op.Kind, op.End, rc.t0/1000, cl.hi/1000, done, t1/1000, where), sc, map[string]interface{}{"op": op})
 				}
@@ -1199,6 +1255,26 @@ func corpus(thorough bool) []*Scenario {
 	out = append(out, &Scenario{Transport: "udp", Kind: "udp-hole-then-close", NSess: 1, HorizonMs: 260000, Ops: []Op{
 		{0, "c", "W", 100, "Write", 3000, 0}, {0, "s", "R", 0, "Read", 0, 0}, {0, "s", "R", 200, "Read", 0, 0},
 		{0, "x", "C", 1000, "Hole", 0, 0}, {0, "c", "C", 2000, "Close", 0, 0}}})
+	// mid-transfer: two sessions on ONE underlay, each with a blocked reader and an active writer (the peer drains);
+	// then the connection is reset / the client mux is closed / the server mux is closed.  Expected on the unchanged
+	// tree: every call returns within the bound (sessions of an underlay are torn down one after the other).
+	for _, tp := range []string{"tcp", "udp"} {
+		for _, ev := range []string{"Reset", "CMux", "SMux"} {
+			if ev == "Reset" && tp == "udp" {
+				continue
+			}
+			sc := &Scenario{Transport: tp, Kind: "midtransfer-" + strings.ToLower(ev), NSess: 2, OneUnderlay: true, PumpGapMs: 5, HorizonMs: 9000}
+			for i := 0; i < 2; i++ {
+				sc.Ops = append(sc.Ops, Op{Sess: i, End: "c", Role: "R", At: 0, Kind: "Read"}, Op{Sess: i, End: "s", Role: "R", At: 0, Kind: "Drain"},
+					Op{Sess: i, End: "c", Role: "W", At: 100 + 3*i, Kind: "Flood", Arg: 100000})
+			}
+			sc.Ops = append(sc.Ops, Op{End: "x", Role: "C", At: 1500, Kind: ev})
+			if ev != "Reset" {
+				sc.Ops = append(sc.Ops, Op{End: "x", Role: "C", At: 1600, Kind: ev})
+			}
+			out = append(out, sc)
+		}
+	}
 	// peer stopped reading: back-pressure (TCP: down to the socket, Cap-bounded pipe; UDP: windows and queues)
 	out = append(out, &Scenario{Transport: "tcp", Kind: "stall-close", NSess: 1, Cap: 4096, Stall: true, FloodDLms: 300, HorizonMs: 12000, Ops: []Op{
 		{Sess: 0, End: "c", Role: "W", At: 0, Kind: "Flood", Arg: 6000}, {Sess: 0, End: "c", Role: "C", At: 4000, Kind: "Close"}}})
